@@ -30,6 +30,7 @@ func verifU32(v uint32) []byte {
 // indices with the REAL rewriteKernRulesWithRingLpmIndex, encodes prefixes with
 // the REAL cidrToBpfLpmKey. Returns the ring start index.
 func verifLoadProgram(k *vk.KS, snap *routingKernspaceSnapshot) (allocStart uint32, err error) {
+	k.Sync() // drain commands queued by the caller: only this function's updates are judged below
 	lpmCount := uint32(len(snap.simulatedLpmTries))
 	allocStart, err = reserveLpmRingSlots(lpmCount)
 	if err != nil {
